@@ -21,7 +21,7 @@ VERIF = os.path.dirname(os.path.dirname(os.path.abspath(__file__)))
 REPO = os.environ.get("RXRUST_REPO", "/repo")
 KDIR = os.path.join(VERIF, "contracts", "kani")
 TARGET = os.path.join(VERIF, "build", "kani-target")
-HARNESS_TIMEOUT = os.environ.get("VERIF_KANI_TIMEOUT", "240")
+HARNESS_TIMEOUT = os.environ.get("VERIF_KANI_TIMEOUT", "600")
 THOROUGH_TIMEOUT = os.environ.get("VERIF_KANI_TIMEOUT_THOROUGH", "1200")
 
 
@@ -116,7 +116,7 @@ def run(pid, tier="quick", exclude=()):
         env["CARGO_TARGET_DIR"] = TARGET
         os.makedirs(TARGET, exist_ok=True)
         jpath = os.path.join(scratch, "kani.json")
-        cmd = ["cargo", "kani", "-Z", "unstable-options", "-Z", "stubbing"] + os.environ.get("VERIF_KANI_EXTRA", "").split() + ["--output-format=terse", "-j", "8",
+        cmd = ["cargo", "kani", "-Z", "unstable-options", "-Z", "stubbing"] + os.environ.get("VERIF_KANI_EXTRA", "").split() + ["--output-format=terse", "-j", os.environ.get("VERIF_KANI_JOBS", "8"),
                "--harness-timeout", (THOROUGH_TIMEOUT if tier == "thorough" else HARNESS_TIMEOUT) + "s", "--export-json", jpath]
         for hf, h in wanted:
             cmd += ["--harness", "verif_kani_%s::%s" % (hf["name"], h["name"])]
